@@ -35,3 +35,159 @@ def r12a(F):
 RULES = [
 	('12.a', 'TLV writer tables are subsets of their reader tables; required types are always written; types increase; nothing unpaired', r12a),
 ]
+
+SER = 'lightning::util::ser::'
+
+def _thresholds(F, fn, leaf_re):
+	"""comparison thresholds T such that the function tests  leaf < T  (any equivalent form)"""
+	ts = set()
+	eqs = set()
+	n = 0
+	for g in guards_in(F, fn):
+		terms, op, K, used = g.nf
+		if len(terms) != 1:
+			continue
+		leaf, c = list(terms.items())[0]
+		if not re.search(leaf_re, leaf):
+			continue
+		n += 1
+		if c < 0:
+			op = {'Lt': 'Gt', 'Le': 'Ge', 'Gt': 'Lt', 'Ge': 'Le', 'Eq': 'Eq', 'Ne': 'Ne'}[op]
+			K = -K
+		if op == 'Lt':
+			ts.add(K)
+		elif op == 'Le':
+			ts.add(K + 1)
+		elif op == 'Ge':
+			ts.add(K)
+		elif op == 'Gt':
+			ts.add(K + 1)
+		elif op in ('Eq', 'Ne'):
+			eqs.add(K)
+	return ts, eqs, n
+
+def r12f(F):
+	"""variable-length integer encodings: the writer's width thresholds equal the reader's minimality thresholds"""
+	out = []
+	w, _, nw = _thresholds(F, '<%sBigSize as %sWriteable>::write' % (SER, SER), r'self\.0$')
+	r, _, nr = _thresholds(F, '<%sBigSize as %sReadable>::read' % (SER, SER), r'read\(')
+	w.discard(0)
+	want = {0xFD, 0x10000, 0x100000000}
+	ok = w == want and r == want
+	out.append(Result('12.f', ok, ('ok:' if ok else 'boundary:') + 'BigSize', 'BigSize::write switches width at %s, BigSize::read rejects non-minimal encodings below %s (expected both %s)' % (sorted(w), sorted(r), sorted(want)), nw + nr,
+		where=F.where(F.fn('<%sBigSize as %sWriteable>::write' % (SER, SER)))))
+	w, _, nw = _thresholds(F, '<%sCollectionLength as %sWriteable>::write' % (SER, SER), r'self\.0$')
+	_, e, nr = _thresholds(F, '<%sCollectionLength as %sReadable>::read' % (SER, SER), r'^val$|read\(')
+	ok = w == {0xffff} and e == {0xffff}
+	out.append(Result('12.f', ok, ('ok:' if ok else 'boundary:') + 'CollectionLength', 'CollectionLength::write uses the short form below %s; CollectionLength::read treats %s as the escape marker (expected 65535 for both: a length of exactly 65535 must use the long form)' % (sorted(w), sorted(e)), nw + nr,
+		where=F.where(F.fn('<%sCollectionLength as %sWriteable>::write' % (SER, SER)))))
+	return out
+
+RULES.append(('12.f', 'BigSize / CollectionLength: writer width thresholds equal reader thresholds', r12f))
+
+L = 'lightning::'
+W = lambda t: '<%s as lightning::util::ser::Writeable>::write' % t
+RT = 'runtime-only state (handles, caches, locks, in-memory bookkeeping) rebuilt or re-supplied on load'
+SIG = 'signer / handshake / closing-negotiation state that is deliberately reset by a restart (the peer is disconnected)'
+COVERAGE = [
+	# (adt, writer roots, {field: reason})
+	(L + 'chain::channelmonitor::ChannelMonitorImpl', [L + 'chain::channelmonitor::write_chanmon_internal'],
+		{'is_processing_pending_events': RT, 'failed_back_htlc_ids': 'rebuilt lazily; duplicates are filtered against pending events', 'written_by_0_1_or_later': 'set by the reader from the stream itself'}),
+	(L + 'chain::channelmonitor::FundingScope', [L + 'chain::channelmonitor::write_chanmon_internal'], {}),
+	(L + 'chain::onchaintx::OnchainTxHandler', [L + 'chain::onchaintx::OnchainTxHandler::write'],
+		{'channel_id': 'supplied by the ChannelMonitor reader (set_channel_id)', 'counterparty_node_id': 'supplied by the ChannelMonitor reader', 'channel_value_satoshis': 'passed as a read argument by the ChannelMonitor reader',
+		 'channel_keys_id': 'passed as a read argument by the ChannelMonitor reader', 'signer': 're-derived from channel_keys_id (a zero-length placeholder is written)', 'pending_claim_events': 'regenerated by rebroadcast after load', 'secp_ctx': RT}),
+	(L + 'chain::package::PackageTemplate', [W(L + 'chain::package::PackageTemplate')], {'malleability': 'recomputed from the inputs by the reader'}),
+	(L + 'ln::channel::ChannelContext', [W(L + 'ln::channel::FundedChannel')],
+		{'prev_config': RT, 'inbound_handshake_limits_override': SIG, 'secp_ctx': RT, 'holder_signer': 're-derived from channel_keys_id',
+		 'signer_pending_revoke_and_ack': SIG, 'signer_pending_commitment_update': SIG, 'signer_pending_funding': SIG, 'signer_pending_closing': SIG,
+		 'signer_pending_channel_ready': SIG, 'signer_pending_stale_state_verification': SIG, 'last_sent_closing_fee': SIG, 'last_received_closing_sig': SIG,
+		 'pending_counterparty_closing_signed': SIG, 'closing_fee_limits': SIG, 'expecting_peer_commitment_signed': SIG, 'closing_signed_in_flight': SIG,
+		 'workaround_lnd_bug_4006': SIG, 'funding_locked_txid_sent_in_reestablish': SIG, 'sent_message_awaiting_response': SIG}),
+	(L + 'ln::channel::FundingScope', [W(L + 'ln::channel::FundedChannel'), W(L + 'ln::channel::FundingScope')], {}),
+	(L + 'ln::channel::FundedChannel', [W(L + 'ln::channel::FundedChannel')], {'quiescent_action': SIG}),
+	(L + 'ln::channel::InboundHTLCOutput', [W(L + 'ln::channel::FundedChannel')], {}),
+	(L + 'ln::channel::OutboundHTLCOutput', [W(L + 'ln::channel::FundedChannel')], {'send_timestamp': 'hold-time measurement only; not meaningful across restarts'}),
+	(L + 'ln::channelmanager::ChannelManager', [W(L + 'ln::channelmanager::ChannelManager')],
+		{k: RT for k in ('config', 'fee_estimator', 'chain_monitor', 'tx_broadcaster', 'router', 'secp_ctx', 'awaiting_trampoline_forwards', 'outbound_scid_aliases',
+			'short_to_chan_info', 'inbound_payment_key', 'pending_events_processor', 'pending_htlc_forwards_processor', 'pending_background_events', 'funding_batch_states',
+			'background_events_processed_since_startup', 'event_persist_notifier', 'needs_persist_flag', 'pending_broadcast_messages', 'last_days_feerates', 'entropy_source',
+			'node_signer', 'signer_provider', 'logger')}),
+	(L + 'ln::channelmanager::PeerState', [W(L + 'ln::channelmanager::ChannelManager')],
+		{'inbound_channel_request_by_id': 'unaccepted inbound requests are dropped on restart', 'pending_msg_events': 'the peer is disconnected by a restart',
+		 'actions_blocking_raa_monitor_updates': 'rebuilt from monitor_update_blocked_actions / pending events on load'}),
+	(L + 'ln::channelmanager::ClaimableHTLC', [L + 'ln::channelmanager::write_claimable_htlc'], {}),
+	(L + 'ln::channelmanager::MppPart', [L + 'ln::channelmanager::write_claimable_htlc'], {'timer_ticks': 'timeout counter restarts at zero'}),
+	(L + 'routing::gossip::NetworkGraph', [W(L + 'routing::gossip::NetworkGraph')],
+		{k: RT for k in ('secp_ctx', 'logger', 'removed_node_counters', 'next_node_counter', 'removed_channels', 'removed_nodes', 'pending_checks')}),
+	(L + 'routing::gossip::ChannelInfo', [W(L + 'routing::gossip::ChannelInfo')], {'node_one_counter': RT, 'node_two_counter': RT}),
+	(L + 'routing::gossip::NodeInfo', [W(L + 'routing::gossip::NodeInfo')], {'node_counter': RT}),
+	(L + 'routing::gossip::ChannelUpdateInfo', [W(L + 'routing::gossip::ChannelUpdateInfo')], {}),
+	(L + 'routing::scoring::ProbabilisticScorer', [W(L + 'routing::scoring::ProbabilisticScorer')], {k: RT for k in ('decay_params', 'network_graph', 'logger', 'last_update_time')}),
+	(L + 'routing::scoring::ChannelLiquidity', [W(L + 'routing::scoring::ChannelLiquidity')], {}),
+	(L + 'util::sweep::SweeperState', [W(L + 'util::sweep::SweeperState')], {}),
+]
+
+def r12b(F):
+	out = []
+	for adt, roots, np_ in COVERAGE:
+		if np_ is None:
+			# discover nothing: every field must be covered
+			np_ = {}
+		out += P11_field_coverage(F, '12.b', adt, roots, np_)
+	return out
+
+RULES.append(('12.b', 'every field of the persisted structs is read under its writer or is on the reviewed not-persisted list', r12b))
+
+def r12g(F):
+	"""the serialized channel is the channel as it will be after the disconnect a restart implies: the writer drops
+	peer-announced-but-uncommitted inbound HTLCs exactly as remove_uncommitted_htlcs_and_mark_paused does, and adjusts
+	next_counterparty_htlc_id by the same count (sibling agreement)"""
+	out = []
+	wfn = W(L + 'ln::channel::FundedChannel')
+	fu = F.func(wfn)
+	ex = Expr(fu)
+	found = []
+	for b, ci in fu.calls():
+		f = norm(ci.get('f') or '')
+		if f.endswith('Writeable>::write') and ci['args']:
+			e = ex.of_operand(ci['args'][0])
+			if 'next_counterparty_htlc_id' in expr_str(e):
+				found.append((b, e))
+	if not found:
+		out.append(Result('12.g', False, 'anchor:next_counterparty_htlc_id', 'FundedChannel::write no longer serializes next_counterparty_htlc_id'))
+	for b, e in found:
+		terms, k = linear(e)
+		neg = [v for v, c in terms.items() if c == -1]
+		ok = k == 0 and len(terms) == 2 and len(neg) == 1 and 'dropped' in neg[0]
+		out.append(Result('12.g', ok, ('ok:' if ok else 'shape:') + 'written-htlc-id', 'FundedChannel::write serializes next_counterparty_htlc_id as %s (expected the counter minus the number of dropped remote-announced HTLCs)' % expr_str(e), 1, where=F.where(wfn, fu.line_of(b))))
+	# the inbound HTLC count written is adjusted by the same variable
+	cnt = []
+	for b, ci in fu.calls():
+		f = norm(ci.get('f') or '')
+		if f.endswith('Writeable>::write') and ci['args']:
+			e = ex.of_operand(ci['args'][0])
+			t = expr_str(e)
+			if 'pending_inbound_htlcs' in t and 'len(' in t:
+				cnt.append((b, e))
+	okc = any(any(c == -1 and 'dropped' in v for v, c in linear(e)[0].items()) for b, e in cnt)
+	out.append(Result('12.g', okc, ('ok:' if okc else 'shape:') + 'written-inbound-count', 'the serialized inbound HTLC count is pending_inbound_htlcs.len() minus the dropped ones: %s' % [expr_str(e)[:80] for b, e in cnt], max(1, len(cnt)), where=F.where(wfn)))
+	# sibling: the disconnect path
+	dfn = L + 'ln::channel::FundedChannel::remove_uncommitted_htlcs_and_mark_paused'
+	try:
+		du = F.func(dfn)
+	except AnchorMissing:
+		dfn = L + 'ln::channel::ChannelContext::remove_uncommitted_htlcs_and_mark_paused'
+		du = F.func(dfn)
+	dex = Expr(du)
+	ws = sites_field_write(du, 'next_counterparty_htlc_id')
+	okd = False
+	for b, si in ws:
+		e = dex.of_rvalue(du.blocks[b]['s'][si][2])
+		terms, k = linear(e)
+		if k == 0 and any(c == -1 and 'drop' in v for v, c in terms.items()):
+			okd = True
+	out.append(Result('12.g', okd, ('ok:' if okd else 'shape:') + 'disconnect-htlc-id', 'remove_uncommitted_htlcs_and_mark_paused decrements next_counterparty_htlc_id by the dropped count', max(1, len(ws)), where=F.where(dfn)))
+	return out
+
+RULES.append(('12.g', 'writer and disconnect path agree on dropping uncommitted inbound HTLCs and adjusting next_counterparty_htlc_id', r12g))
